@@ -244,7 +244,35 @@ def evaluate(res):
     return corr, oracle(res.case, res.cpp)
 
 
+def hilbert_stage(rep):
+    """Hilbert ordering (D=3): parents must contain their children; bijection index <-> position"""
+    import common
+    res = common.build_many([{"name": "h_hilbert", "sources": ["h_hilbert.cpp"], "flags": []}])
+    path, log = res["h_hilbert"]
+    if not path:
+        rep.violation("harness-does-not-compile:hilbert", log[-3000:], False, "harness/h_hilbert.cpp does not compile")
+        return
+    rc, out, err = common.run_harness(path, "")
+    if rc != 0:
+        from props import corefam
+        rep.violation("crash:" + corefam.crash_signature(err), "# harness/h_hilbert.cpp\n# " + err[:3000].replace("\n", "\n# "), True, "Hilbert ordering: the library aborted: " + corefam.crash_signature(err))
+        return
+    rows = [ln.split() for ln in out.split("\n") if ln.startswith("HB ")]
+    rep.cov["hilbert_rows"] = len(rows)
+    for t in rows:
+        H, level, n, bij, par, first = (int(x) for x in t[1:7])
+        if bij:
+            rep.violation("C11:hilbert-bijection", "# harness/h_hilbert.cpp (no input): height %d level %d: %d of %d indices do not round-trip\n" % (H, level, bij, n), True,
+                          "Hilbert ordering, height %d level %d: %d of %d indices do not round-trip through their box position" % (H, level, bij, n))
+        if par:
+            rep.violation("C11:hilbert-parent-containment", "# harness/h_hilbert.cpp (no input): height %d level %d: for %d of %d indices (first: %d) the parent index is not the cell that contains the index\n" % (H, level, par, n, first), True,
+                          "Hilbert ordering, height %d level %d: the parent of %d of %d indices (e.g. %d) is not the cell that geometrically contains them" % (H, level, par, n, first))
+
+
 def run(rep, tier, seed, replay, proof_ok, proof_msg):
+    if not replay:
+        hilbert_stage(rep)
+
     def nontrivial(res, nl, split):
         return True
     corefam.standard_run(rep, tier, seed, replay, proof_ok, proof_msg, gen_cases, evaluate, nontrivial=nontrivial,
@@ -252,4 +280,4 @@ def run(rep, tier, seed, replay, proof_ok, proof_msg):
     rep.cov["rule"] = ("exhaustive: every cell of every level with at most 300 (quick) / 5000 (thorough) cells, D=1..4, periodic and not: decode, encode, parent, child code, "
                        "interaction list, neighbour lists, all position codes; random: per-group builders on random groups, bit algebra on random indices up to 62 bits. "
                        "Each case is one (D, periodic, level) or one random group; all are distinct.")
-    rep.assumptions += ["Hilbert ordering: see known finding F-H (not part of this correspondence)"]
+    rep.assumptions += ["Hilbert ordering: parent containment and bijection are checked on the real class for heights 2..5 (known finding); it has no Lean model"]
